@@ -36,11 +36,11 @@ def p_cat(I, a, n):
 
 
 def p_low(I, a, n):
-    return mk_int(T.low(as_int_term(a[0]), as_int_term(a[1])))
+    return mk_int(T.low(as_int_term(a[0]), z3.simplify(as_int_term(a[1]))))
 
 
 def p_shr(I, a, n):
-    e = as_int_term(a[1])
+    e = z3.simplify(as_int_term(a[1]))
     if const_int(e) == 0:
         return mk_int(as_int_term(a[0]))
     return mk_int(T.shr(as_int_term(a[0]), e))
